@@ -207,3 +207,221 @@ Print Assumptions C10_cmp_agree.
 Print Assumptions C10_from_blocks_agree.
 Print Assumptions C10_bdd_agree.
 Print Assumptions C10_bdd_agree_empty.
+
+
+(* ---- Lut and StaticLut side by side, on the data REGENERATED FROM THE RUST SOURCE on every run (Gen/Guards.v: every
+        fn of impl Lut / impl StaticLut with the ordered syntactic events of its body; Gen/Surface.v: trait impls,
+        derives).  Definitions, proofs and negative examples are in Proofs/Surface10.v.
+        pub_methods fs T        = names of the public inherent methods of impl T
+        kernel_row fs deep m    = (m, kernels of Lut::m, kernels of StaticLut::m) where the kernels of a body are its
+                                  calls of free functions of operations.rs / decomposition.rs / bdd.rs /
+                                  canonization.rs, in order, after following `.g(..)` forwards inside the same impl
+                                  (deep = true: also `Self::g(..)` / `Lut::g(..)` calls of functions of the same impl) *)
+From Coq Require Import String.
+From V Require Import Gen.Guards Gen.Surface Proofs.Guards17 Proofs.Surface10.
+Open Scope nat_scope.
+Open Scope string_scope.
+
+(* (a) the same public methods *)
+Theorem C10_common_methods :
+  filter (fun m => mem m (pub_methods functions "StaticLut")) (pub_methods functions "Lut") =
+  ["num_vars"; "num_bits"; "num_blocks"; "one"; "zero"; "nth_var"; "parity"; "majority"; "threshold"; "equals";
+   "symmetric"; "random"; "value"; "get_bit"; "set_value"; "set_bit"; "unset_bit"; "not_inplace"; "and_inplace";
+   "or_inplace"; "xor_inplace"; "flip_inplace"; "swap_inplace"; "swap_adjacent_inplace"; "not"; "and"; "or"; "xor";
+   "flip"; "swap"; "swap_adjacent"; "cofactors"; "from_cofactors"; "blocks"; "from_blocks"; "p_canonization";
+   "n_canonization"; "npn_canonization"; "top_decomposition"; "is_pos_unate"; "is_neg_unate"; "all_functions";
+   "bdd_complexity"; "to_hex_string"; "to_bin_string"; "from_hex_string"].
+Proof. exact s10_common_methods. Qed.
+
+(* nothing on one side only *)
+Theorem C10_lut_only :
+  filter (fun m => negb (mem m (pub_methods functions "StaticLut"))) (pub_methods functions "Lut") = [].
+Proof. exact s10_lut_only. Qed.
+
+Theorem C10_static_only :
+  filter (fun m => negb (mem m (pub_methods functions "Lut"))) (pub_methods functions "StaticLut") = [].
+Proof. exact s10_static_only. Qed.
+
+Theorem C10_method_names_unique :
+  forallb (fun T => Nat.eqb (List.length (nodup string_dec (pub_methods functions T)))
+                            (List.length (pub_methods functions T))) ["Lut"; "StaticLut"] = true /\
+  map (fun T => List.length (pub_methods functions T)) ["Lut"; "StaticLut"] = [46; 46].
+Proof. exact s10_method_names_unique. Qed.
+
+(* (b) through the same kernels, in the same order.  The two exceptions are about storage, not about the function:
+       zero        Lut::zero(n) = Lut::new(n) + kernel fill_zero; StaticLut::zero() = Self::default() = [0; T]
+       from_blocks Lut asserts blocks.len() == ret.num_blocks() (-> table_size); StaticLut has T in its type and
+                   relies on clone_from_slice alone (see C10_from_blocks_agree) *)
+Theorem C10_same_kernels :
+  forallb (fun m => mem m ["zero"; "from_blocks"] || same_kernels functions false m) (common_methods functions) = true.
+Proof. exact s10_same_kernels. Qed.
+
+Theorem C10_kernel_differences :
+  filter (fun r => negb (same_kernels_upto [] r)) (map (kernel_row functions false) (common_methods functions)) =
+  [("zero", ["fill_zero"], []); ("from_blocks", ["table_size"], [])].
+Proof. exact s10_kernel_differences. Qed.
+
+(* following the associated-function calls too: no exception at all once the allocation of the boxed table
+   (table_size) and its clearing (fill_zero) - which StaticLut gets from its type - are set aside *)
+Theorem C10_same_kernels_deep :
+  forallb (fun m => same_kernels_upto ["table_size"; "fill_zero"] (kernel_row functions true m))
+          (common_methods functions) = true.
+Proof. exact s10_same_kernels_deep. Qed.
+
+Theorem C10_kernel_table :
+  map (kernel_row functions false) (common_methods functions) =
+  [ ("num_vars", [], []); ("num_bits", [], []); ("num_blocks", ["table_size"], ["table_size"]);
+    ("one", ["fill_one"], ["fill_one"]); ("zero", ["fill_zero"], []);
+    ("nth_var", ["fill_nth_var"], ["fill_nth_var"]); ("parity", ["fill_parity"], ["fill_parity"]);
+    ("majority", ["fill_majority"], ["fill_majority"]); ("threshold", ["fill_threshold"], ["fill_threshold"]);
+    ("equals", ["fill_equals"], ["fill_equals"]); ("symmetric", ["fill_symmetric"], ["fill_symmetric"]);
+    ("random", ["fill_random"], ["fill_random"]); ("value", ["get_bit"], ["get_bit"]);
+    ("get_bit", ["get_bit"], ["get_bit"]); ("set_value", ["set_bit"; "unset_bit"], ["set_bit"; "unset_bit"]);
+    ("set_bit", ["set_bit"], ["set_bit"]); ("unset_bit", ["unset_bit"], ["unset_bit"]);
+    ("not_inplace", ["not_inplace"], ["not_inplace"]); ("and_inplace", ["and_inplace"], ["and_inplace"]);
+    ("or_inplace", ["or_inplace"], ["or_inplace"]); ("xor_inplace", ["xor_inplace"], ["xor_inplace"]);
+    ("flip_inplace", ["flip_inplace"], ["flip_inplace"]); ("swap_inplace", ["swap_inplace"], ["swap_inplace"]);
+    ("swap_adjacent_inplace", ["swap_adjacent_inplace"], ["swap_adjacent_inplace"]);
+    ("not", ["not_inplace"], ["not_inplace"]); ("and", ["and_inplace"], ["and_inplace"]);
+    ("or", ["or_inplace"], ["or_inplace"]); ("xor", ["xor_inplace"], ["xor_inplace"]);
+    ("flip", ["flip_inplace"], ["flip_inplace"]); ("swap", ["swap_inplace"], ["swap_inplace"]);
+    ("swap_adjacent", ["swap_adjacent_inplace"], ["swap_adjacent_inplace"]);
+    ("cofactors", ["cofactor0_inplace"; "cofactor1_inplace"], ["cofactor0_inplace"; "cofactor1_inplace"]);
+    ("from_cofactors", ["from_cofactors_inplace"], ["from_cofactors_inplace"]); ("blocks", [], []);
+    ("from_blocks", ["table_size"], []); ("p_canonization", ["p_canonization"], ["p_canonization"]);
+    ("n_canonization", ["n_canonization"], ["n_canonization"]);
+    ("npn_canonization", ["npn_canonization"], ["npn_canonization"]);
+    ("top_decomposition", ["top_decomposition"], ["top_decomposition"]);
+    ("is_pos_unate", ["input_pos_unate"], ["input_pos_unate"]);
+    ("is_neg_unate", ["input_neg_unate"], ["input_neg_unate"]); ("all_functions", [], []);
+    ("bdd_complexity", ["table_complexity"], ["table_complexity"]); ("to_hex_string", ["to_hex"], ["to_hex"]);
+    ("to_bin_string", ["to_bin"], ["to_bin"]); ("from_hex_string", ["fill_hex"], ["fill_hex"]) ].
+Proof. exact s10_kernel_table. Qed.
+
+(* (c) the trait impls that are not logical operators (those are C01_operators_forward): Default, Ord, PartialOrd
+       (through Ord::cmp), Display, LowerHex, Binary, and Iterator::next of the two iterator types *)
+Theorem C10_same_kernels_traits :
+  forallb (same_trait_kernels functions false []) trait_pairs = true /\
+  forallb (same_trait_kernels functions true ["table_size"; "fill_zero"]) trait_pairs = true.
+Proof. exact s10_same_kernels_traits. Qed.
+
+Theorem C10_trait_kernel_table :
+  map (trait_row functions false) trait_pairs =
+  [ ("Default", [[]], [[]]); ("Ord", [["cmp"]], [["cmp"]]); ("PartialOrd", [["cmp"]], [["cmp"]]);
+    ("fmt::Display", [["fmt_hex"]], [["fmt_hex"]]); ("fmt::LowerHex", [["fmt_hex"]], [["fmt_hex"]]);
+    ("fmt::Binary", [["fmt_bin"]], [["fmt_bin"]]); ("Iterator", [["next_inplace"]], [["next_inplace"]]) ] /\
+  trait_row functions true ("Default", "Lut", "StaticLut") = ("Default", [["table_size"; "fill_zero"]], [[]]).
+Proof. exact s10_trait_kernel_table. Qed.
+
+(* the same parameters: those of Lut::m without `num_vars` (the const generic N of StaticLut), `&Lut` = `&Self`;
+   the methods of Lut that take num_vars are exactly the constructors *)
+Theorem C10_same_signatures : forallb (same_signature functions) (common_methods functions) = true.
+Proof. exact s10_same_signatures. Qed.
+
+Theorem C10_num_vars_methods :
+  filter (fun m => match find_method functions "Lut" m with
+                   | Some a => mem "num_vars" (map fst (params_of a)) | None => false end) (common_methods functions) =
+  ["one"; "zero"; "nth_var"; "parity"; "majority"; "threshold"; "equals"; "symmetric"; "random"; "from_blocks";
+   "all_functions"; "from_hex_string"].
+Proof. exact s10_num_vars_methods. Qed.
+
+(* the same traits: the 27 trait impls of lut.rs are the 27 of static_lut.rs with StaticLut renamed to Lut, the
+   conversions set aside (pinned below); the derives differ by Copy *)
+Theorem C10_same_traits :
+  same_set (impl_names "src/lut.rs" trait_impls) (impl_names "src/static_lut.rs" trait_impls) = true /\
+  List.length (impl_names "src/lut.rs" trait_impls) = 27 /\
+  List.length (impl_names "src/static_lut.rs" trait_impls) = 27.
+Proof. exact s10_same_traits. Qed.
+
+Theorem C10_conversions :
+  flat_map (fun '(f, tr, ty, fns) => if mem f ["src/lut.rs"; "src/static_lut.rs"] && is_conversion tr
+                                     then [(tr, ty)] else []) trait_impls =
+  [("TryFrom<Lut>", "StaticLut"); ("From<StaticLut>", "Lut"); ("From<u8>", "Lut3"); ("From<u16>", "Lut4");
+   ("From<u32>", "Lut5"); ("From<u64>", "Lut6"); ("From<Lut3>", "u8"); ("From<Lut4>", "u16"); ("From<Lut5>", "u32");
+   ("From<Lut6>", "u64")].
+Proof. exact s10_conversions. Qed.
+
+Theorem C10_derives :
+  derives_of "Lut" = ["Debug"; "Clone"; "Hash"; "PartialEq"; "Eq"] /\
+  derives_of "StaticLut" = ["Debug"; "Clone"; "Copy"; "Hash"; "PartialEq"; "Eq"] /\
+  filter (fun d => negb (mem d (derives_of "Lut"))) (derives_of "StaticLut") = ["Copy"] /\
+  filter (fun d => negb (mem d (derives_of "StaticLut"))) (derives_of "Lut") = [].
+Proof. exact s10_derives. Qed.
+
+(* coverage of the model: every public inherent method of the two impls has a row in the table
+   `modelled : list (method name * function of Model/Api.v)` of Proofs/Surface10.v (the right-hand names are anchored
+   to the constants of Model/Api.v by `modelled_anchor`).  A new public method in the Rust source breaks this Qed. *)
+Theorem C10_every_public_method_modelled :
+  forallb (fun name => existsb (String.eqb name) (map fst modelled))
+          (pub_methods functions "Lut" ++ pub_methods functions "StaticLut") = true.
+Proof. exact s10_every_public_method_modelled_app. Qed.
+
+Theorem C10_modelled_table :
+  modelled =
+  [ ("num_vars", "nv"); ("num_bits", "num_bits"); ("num_blocks", "num_blocks");
+    ("one", "D_one"); ("zero", "D_zero"); ("nth_var", "D_nth_var"); ("parity", "D_parity");
+    ("majority", "D_majority"); ("threshold", "D_threshold"); ("equals", "D_equals"); ("symmetric", "D_symmetric");
+    ("random", "D_random");
+    ("value", "D_value"); ("get_bit", "D_get_bit"); ("set_value", "D_set_value"); ("set_bit", "D_set_bit");
+    ("unset_bit", "D_unset_bit");
+    ("not_inplace", "D_not"); ("and_inplace", "D_and"); ("or_inplace", "D_or"); ("xor_inplace", "D_xor");
+    ("flip_inplace", "D_flip"); ("swap_inplace", "D_swap"); ("swap_adjacent_inplace", "D_swap_adjacent");
+    ("not", "D_not"); ("and", "D_and"); ("or", "D_or"); ("xor", "D_xor");
+    ("flip", "D_flip"); ("swap", "D_swap"); ("swap_adjacent", "D_swap_adjacent");
+    ("cofactors", "D_cofactors"); ("from_cofactors", "D_from_cofactors");
+    ("blocks", "tbl"); ("from_blocks", "D_from_blocks");
+    ("p_canonization", "D_p_canonization"); ("n_canonization", "D_n_canonization");
+    ("npn_canonization", "D_npn_canonization");
+    ("top_decomposition", "D_top_decomposition"); ("is_pos_unate", "D_is_pos_unate");
+    ("is_neg_unate", "D_is_neg_unate");
+    ("all_functions", "D_all_functions"); ("bdd_complexity", "D_bdd_complexity");
+    ("to_hex_string", "D_to_hex_string"); ("to_bin_string", "D_to_bin_string");
+    ("from_hex_string", "D_from_hex_string") ] /\
+  modelled_static_variant =
+  [ ("from_cofactors", "S_from_cofactors"); ("from_blocks", "S_from_blocks"); ("bdd_complexity", "S_bdd_complexity") ].
+Proof. exact s10_modelled_table. Qed.
+
+(* no stale row, no duplicate, 46 rows, none "(not modelled ...)"; the S_ variants are common methods *)
+Theorem C10_modelled_exact :
+  forallb (fun name => mem name (all_public_methods functions)) (map fst modelled) = true /\
+  List.length (nodup string_dec (map fst modelled)) = List.length modelled /\
+  List.length modelled = 46 /\
+  filter (fun r => prefix "(not modelled" (snd r)) modelled = [] /\
+  forallb (fun r => mem (fst r) (common_methods functions)) modelled_static_variant = true.
+Proof. exact s10_modelled_exact. Qed.
+
+(* the same for every trait impl of lut.rs / static_lut.rs and every derive of the two types; the only entry
+   without a model counterpart is the derived Debug *)
+Theorem C10_every_trait_impl_modelled :
+  every_trait_impl_modelled trait_impls = true /\
+  forallb (fun T => forallb (fun d => mem d (map fst modelled_derives)) (derives_of T)) ["Lut"; "StaticLut"] = true /\
+  map fst (filter (fun r => prefix "(not modelled" (snd r)) (modelled_traits ++ modelled_derives)) = ["Debug"].
+Proof. exact s10_every_trait_impl_modelled. Qed.
+
+(* the predicates discriminate: a kernel exchanged on one side, a method made public, a new trait impl *)
+Example C10_surface_predicates_discriminate :
+  (let fs := edit "StaticLut" "" "flip_inplace" (with_events [CheckVar "ind"; Call "swap_inplace"; Method "as_mut"]) functions in
+   filter (fun m => negb (mem m kernel_exceptions || same_kernels fs false m)) (common_methods fs) = ["flip_inplace"; "flip"]) /\
+  every_public_method_modelled (edit "Lut" "" "check_var" (with_pub true) functions) = false /\
+  every_trait_impl_modelled (("src/lut.rs", "Shl<usize>", "Lut", ["shl"]) :: trait_impls) = false.
+Proof. exact (conj neg_other_kernel (conj (proj1 neg_new_public_method) (proj1 neg_new_trait_impl))). Qed.
+
+Print Assumptions C10_common_methods.
+Print Assumptions C10_lut_only.
+Print Assumptions C10_static_only.
+Print Assumptions C10_method_names_unique.
+Print Assumptions C10_same_kernels.
+Print Assumptions C10_kernel_differences.
+Print Assumptions C10_same_kernels_deep.
+Print Assumptions C10_kernel_table.
+Print Assumptions C10_same_kernels_traits.
+Print Assumptions C10_trait_kernel_table.
+Print Assumptions C10_same_signatures.
+Print Assumptions C10_num_vars_methods.
+Print Assumptions C10_same_traits.
+Print Assumptions C10_conversions.
+Print Assumptions C10_derives.
+Print Assumptions C10_every_public_method_modelled.
+Print Assumptions C10_modelled_table.
+Print Assumptions C10_modelled_exact.
+Print Assumptions C10_every_trait_impl_modelled.
